@@ -321,6 +321,14 @@ func (d *dagStoreImpl) Rename(oldID, newID string) error {
 	if err != nil {
 		return err
 	}
+	if oldLoc == newLoc {
+		return nil
+	}
+	// Renaming must never replace a DAG that already exists under the
+	// target name (os.Rename would overwrite it silently).
+	if exists(newLoc) {
+		return fmt.Errorf("%w: %s", errDAGFileAlreadyExists, newLoc)
+	}
 	return os.Rename(oldLoc, newLoc)
 }
 
